@@ -669,6 +669,14 @@ package gedcom
 //@   loop 1 iter advances: implies(nAtt > old(nAtt), previousNode == node && lastTrim == old(previousNode))
 //@   loop 1 invariant trimmed: nTrim == nAtt
 //@   ensures trimmed-all: implies(isnil(result1), nTrim == nAtt + 1)
+// C01: what the encoder writes for a family is read back whatever stands
+// between the family line and its HUSB / WIFE / CHIL lines - the family handed
+// to the line parser is the most recently decoded family node, nested or not,
+// and it is not forgotten when another record starts
+//@   ghost lastFam int = 0
+//@   oncall parseLine check family-is-the-latest-decoded: arg2 == lastFam
+//@   oncall parseLine do lastFam = ite(isnil(result2) && typeis(result0, "*gedcom.FamilyNode"), data(result0), lastFam)
+//@   loop 1 invariant family-tracked: family == lastFam
 // C01: the BOM flag of the document is what the reader found
 //@   ghost bom bool = false
 //@   oncall Decoder.consumeOptionalBOM do bom = result
